@@ -21,6 +21,7 @@ instance {K : Type} [Field K] [LinearOrder K] (a b rel abs_tol : K) :
 /-- Finite tables standing for sqrt/cos/… when a generated definition is evaluated at ℚ.
     A missing entry is recorded in `miss` by the driver (the lookup itself returns 0). -/
 structure FnTable where
+  pi : ℚ
   sqrt : ℚ → ℚ
   cos : ℚ → ℚ
   sin : ℚ → ℚ
